@@ -392,7 +392,7 @@ def export_netlist(prog, cls, kind, bdir):
 # cases: every finished program of the builder dump
 def _case_worker(job):
     path, lo, hi, stims, sim_mod, sim_res = job
-    out = {"n": 0, "n_err": 0, "n_sim": 0, "n_buf": 0, "n_rej": 0, "mism": [], "fps": [], "sample": None, "ops": {}}
+    out = {"n": 0, "n_err": 0, "n_sim": 0, "n_ctor": 0, "n_buf": 0, "n_rej": 0, "mism": [], "fps": [], "sample": None, "ops": {}}
     bench = None
     pending = 0
 
@@ -443,6 +443,11 @@ def _case_worker(job):
             # simulated: every program of at most 3 operations, and a seeded 1-in-sim_mod sample of the longer ones
             sim_here = sim_mod and (len(prog) <= 3 or sim_mod == 1 or zlib.crc32(r.encode()) % sim_mod == sim_res)
             out["n_sim"] += bool(sim_here and exp["acc"])
+            # constructors (refusal depends on the port's direction only, which was just compared): every program that is
+            # simulated or short, and 1 in 4 of the others
+            if not (sim_here or len(prog) <= 3 or zlib.crc32(r.encode()) % 4 == 0):
+                continue
+            out["n_ctor"] += 1
             for kind, bdir in COMBOS:
                 a = acc.get((kind, bdir))
                 simulate = a is not None and sim_here and bool(a["obs"])
@@ -477,7 +482,7 @@ def case_jobs(ctx, stage, r, dump, stims, sim_mod):
 
 
 def collect_cases(ctx, stage, res, sim_mod):
-    tot = {k: sum(x[k] for x in res) for k in ("n", "n_err", "n_sim", "n_buf", "n_rej", "n_mism")}
+    tot = {k: sum(x[k] for x in res) for k in ("n", "n_err", "n_sim", "n_ctor", "n_buf", "n_rej", "n_mism")}
     ops = {}
     for x in res:
         for k, v in x["ops"].items():
@@ -492,6 +497,7 @@ def collect_cases(ctx, stage, res, sim_mod):
     if tot["n"] == 0 or (sim_mod and tot["n_buf"] == 0):
         raise MachineryError("vacuous replay in stage %s: %r" % (stage, tot))
     ctx.cov["stages"]["replay/" + stage] = {"programs": tot["n"], "refused_sums": tot["n_err"], "programs_simulated": tot["n_sim"],
+                                            "programs_with_constructors_tried": tot["n_ctor"],
                                             "buffers_simulated": tot["n_buf"], "buffers_refused": tot["n_rej"], "by_last_op": ops,
                                             "simulated": ("all programs of <= 3 operations" +
                                                           ("" if sim_mod == 1 else ", 1 in %d of the longer ones" % sim_mod)) if sim_mod else "none"}
@@ -558,7 +564,10 @@ def gen_programs(rng, n, maxw=9, maxleaves=4):
         prog = []
         for j in range(nl):
             w = rng.randint(0, maxw)
-            prog.append({"op": "leaf", "dir": rng.choice(dirs), "w": w, "form": "seq", "inv": [rng.random() < .5 for _ in range(w)]})
+            if rng.random() < .2:
+                prog.append({"op": "leaf", "dir": rng.choice(dirs), "w": w, "form": "bool", "b": rng.random() < .5})
+            else:
+                prog.append({"op": "leaf", "dir": rng.choice(dirs), "w": w, "form": "seq", "inv": [rng.random() < .5 for _ in range(w)]})
             cur = w
             for _ in range(rng.randint(0, 2)):
                 c = rng.random()
@@ -612,9 +621,9 @@ def run(ctx):
     # ---------------- mc: all TLC runs of the models, concurrently ------------------------------------------------
     base = dict(mutant="", depth=2, bools="FALSE", sim="TRUE", extra="")
     if th:
-        builders = [("cases-w2", dict(base, leafw="0,1,2", k=2), 4),
-                    ("cases-w3", dict(base, leafw="0,1,2,3", k=1, sim="FALSE", bools="TRUE", extra="INVARIANT ExpIsEval"), 0),
-                    ("cases-w3-sim", dict(base, leafw="0,3", k=1), 2)]
+        builders = [("cases-w2", dict(base, leafw="0,1,2", k=1, bools="TRUE"), 1),
+                    ("cases-w3", dict(base, leafw="0,1,2,3", k=1, sim="FALSE", extra="INVARIANT ExpIsEval"), 0),
+                    ("cases-w3-sim", dict(base, leafw="0,3", k=0), 2)]
     else:
         builders = [("cases-w2", dict(base, leafw="0,1,2", k=0, bools="TRUE"), 6),
                     ("cases-k1", dict(base, leafw="2", k=1, sim="FALSE", extra="INVARIANT ExpIsEval"), 0)]
@@ -735,19 +744,26 @@ def run(ctx):
     ctx.sample({"program": render(ngood["prog"]), "port class": "diff", "buffer": "comb/io",
                 "netlist cells (kind, op/dir, pads)": [(c["k"], c["op"] or c["dir"], c["port"]) for c in ngood["cells"]]})
 
-    ctx.cov["exhaustive"] = True
-    ctx.cov["rule"] = ("case = one finished port-building program (leaves of width in LeafW with every mask and direction, "
-                       "[lo:hi] / [i] / ~ / + to depth 2) with every Buffer/FFBuffer direction, all enumerated by TLC and all "
-                       "replayed (stage replay/*); plus one FFBuffer execution per tour walk, one seeded random execution and "
-                       "one netlist per (sampled or wide program, buffer kind, direction, port class); non-trivial = port of "
-                       "non-zero width whose buffer is accepted")
-    ctx.assume("builder bounds: leaf widths <= %d, expression depth <= 2, every leaf used once; simulated stimulus = %d steps "
-               "chosen from the seed, checked complete per wire by TLC (ASSUME StimComplete)" % (3 if th else 2, len(stims)))
+    ctx.cov["exhaustive"] = False
+    ctx.cov["rule"] = ("case = one finished port-building program (leaves of the stated widths with every mask and direction; "
+                       "[lo:hi] / [i] / ~ / + to depth 2), all enumerated by TLC; for every one of them len / direction / invert "
+                       "are compared; constructors of all six buffers and the pysim run of every accepted buffer are done for "
+                       "the sub-sample stated per stage (replay/*: programs_with_constructors_tried, programs_simulated); plus "
+                       "one FFBuffer execution per tour walk (every edge of the IoBufFF graph), one seeded random execution per "
+                       "(generated program, buffer kind, direction) and one netlist per (generated program, port class, buffer "
+                       "kind, direction); non-trivial = distinct program / execution of a port of non-zero width / netlist "
+                       "with at least one cell")
+    ctx.assume("builder bounds: %s; every leaf is used once; slices 0 <= lo <= hi <= len only (the language refuses lo > hi)"
+               % "; ".join("%s: leaf widths {%s}, depth <= 2, sums of operands whose depths add up to <= %d" % (n, i["leafw"], i["k"])
+                           for n, i, _ in builders))
+    ctx.assume("simulated stimulus = %d steps chosen from the seed, checked complete per wire by TLC (ASSUME StimComplete): all "
+               "eight (o, oe, port input) combinations on every wire, any two wires told apart, all four edge combinations" % len(stims))
     ctx.assume("power-on contents of FFBuffer registers are not compared (observations start after the first edge of the domain)")
     ctx.assume("netlists: FFBuffer registers are treated as transparent; only XOR/NOT/register/IOBuffer cells are understood "
-               "(anything else is a machinery failure, not a verdict); the complement half of a DifferentialPort must be "
+               "(anything else is rejected as not being o XOR mask); the complement half of a DifferentialPort must be "
                "driven with the complement by output buffers and left undriven by input buffers")
-    ctx.assume("DDRBuffer is platform-dependent and out of scope; unselected leaf bits are unconstrained")
+    ctx.assume("DDRBuffer is platform-dependent and out of scope; leaf bits that are not part of the port are unconstrained; an "
+               "input buffer on a bidirectional simulation port leaves port.o / port.oe unconstrained")
 
 
 def replay(ctx, rep):
